@@ -95,6 +95,19 @@ theorem sum_indicator {α : Type} [DecidableEq α] (G : List α) (hG : G.Nodup) 
     · have : k0 ≠ g := fun h => hG.1 (h ▸ hk')
       simp [this, ih hG.2 hk']
 
+theorem killAll_scale (a : K) (t : List (Cpt K)) : (killAll t).map (Cpt.mapSrc (fun v => a * v)) = killAll t := by
+  simp only [killAll, List.map_map]
+  apply List.map_congr_left
+  intro c _
+  simp [Function.comp, mapSrc_mapSrc]
+
+theorem sameShape_killAll (l : List (Cpt K)) : List.Forall₂ SameShape l (killAll l) := by
+  induction l with
+  | nil => exact List.Forall₂.nil
+  | cons c t ih =>
+    refine List.Forall₂.cons ?_ ih
+    unfold SameShape; rw [mapSrc_mapSrc]
+
 end Lcapy.MNA
 
 namespace Lcapy.Groups
